@@ -152,8 +152,12 @@ class Facts:
             raise KeyError("anchor-missing: function %s" % path)
         return f
 
-    def closures_of(self, path):
-        return sorted(p for p in self.fns if p.startswith(path + "::{closure#"))
+    def closures_of(self, path, nested=False):
+        """closures defined directly in `path` (nested=True: also closures inside those closures)"""
+        out = sorted(p for p in self.fns if p.startswith(path + "::{closure#"))
+        if not nested:
+            out = [p for p in out if "::" not in p[len(path) + 2:]]
+        return out
 
     def adt(self, path):
         a = self.adts.get(path)
